@@ -599,7 +599,37 @@ func c10SubstCode93(r *fw.Rec) {
 			}
 		}
 	}
+	// both check characters must be enforced: a wrong C with the K that fits it, and the right C with
+	// a wrong K, are each a symbol "whose check characters do not verify"
+	for k := 0; k < 12; k++ {
+		wrongC := (cc + 1 + rng.Intn(46)) % 47
+		kFit := c10Code93K(append(append([]int{}, vals...), wrongC))
+		for _, mut := range [][]int{append(append([]int{}, vals...), wrongC, kFit), append(append([]int{}, vals...), cc, (kk+1+rng.Intn(46))%47)} {
+			res, err := odDecode(rd, odRender(onedref.Code93Pattern(mut), quiet, quiet, scale, height), nil)
+			r.Evals(1)
+			if err == nil {
+				r.Violation("model-mismatch", "code93:symbol-with-non-verifying-check-character-read",
+					fmt.Sprintf("Code 93 symbol %v of %s (standard check characters C=%d K=%d) was read as %s although its check characters do not verify", mut, odQuote(text), cc, kk, odQuote(res.GetText())),
+					map[string]interface{}{"text": odQuote(text), "values": mut, "standard_C": cc, "standard_K": kk, "rendering": cfg})
+				return
+			}
+			r.Tally("code93_non_verifying_check_pairs_refused")
+		}
+	}
 	r.Nontrivial("c93/" + text)
+}
+
+// c10Code93K: the K check character over data+C (weights 1..15 from the right), AIM Code 93.
+func c10Code93K(valsWithC []int) int {
+	sum, w := 0, 1
+	for i := len(valsWithC) - 1; i >= 0; i-- {
+		sum += valsWithC[i] * w
+		w++
+		if w > 15 {
+			w = 1
+		}
+	}
+	return sum % 47
 }
 
 func c10FromAlphabet(rng *fw.Rand, alphabet string, n int) string {
@@ -1078,6 +1108,7 @@ func c10(c *fw.Ctx) {
 	c.Floor("sweep_ean8_symbols_decoded", int64(c.Pick(200000, 100000000)))
 	c.Floor("code128_substitutions_refused", 100000)
 	c.Floor("code93_substitutions_refused", 50000)
+	c.Floor("code93_non_verifying_check_pairs_refused", 500)
 	c.Floor("upce_expansions_compared", 2000000)
 	c.Floor("suppressible_numbers_rule_1", 600000)
 	c.Floor("suppressible_numbers_rule_2", 200000)
